@@ -913,9 +913,102 @@ def check_C16(tier):
                                   "environments only)"])
 
 
-CHECKS = {"C16": check_C16, "C04": check_C04, "C03": check_C03, "C13": check_C13, "C12": check_C12, "C11": check_C11, "C17": check_C17, "C09": check_C09, "C10": check_C10, "C01": check_C01, "C02": check_C02, "C05": check_C05, "C06": check_C06, "C07": check_C07,
+# ---------------------------------------------------------------------------
+# C08: interleavings of Conc.tla replayed through the gate hook; free runs under the race detector
+
+def conc_cfg(nvm, switches, emit, view=True):
+    txt = "CONSTANTS\n  NVM = %d\n  MaxSwitches = %d\n  ConcEmit = \"%s\"\n  OperandMod = 65536\n" % (nvm, switches, emit)
+    txt += "SPECIFICATION Spec\n" + ("VIEW View\n" if view else "") + "INVARIANT Isolation\nINVARIANT EmitSched\n"
+    txt += "PROPERTY SharedUntouched\nCHECK_DEADLOCK FALSE\n"
+    return txt
+
+
+def race_stage(name, family, n, modes, stride):
+    gcfg = gen_cfg(family, n)
+
+    def f(acc, binary, s):
+        import subprocess
+        rbin = vf.build_harness(race=True)
+        with vf.Scratch("C08-" + name) as d:
+            cases = os.path.join(d, "cases.ndjson")
+            st = vf.run_tlc("MC_Expr", gcfg, out_cases=cases, workers=1, name="C08-" + name)
+            acc.add_tlc(name, st)
+            fail, summ, log = os.path.join(d, "fail.ndjson"), os.path.join(d, "sum.json"), os.path.join(d, "race")
+            env = vf.goenv()
+            env["GORACE"] = "halt_on_error=0 exitcode=0 log_path=%s history_size=2" % log
+            p = subprocess.run([rbin, "replay", "-prop", "C08R", "-in", cases, "-fail", fail, "-sum", summ, "-modes", modes,
+                                "-stride", str(stride)], capture_output=True, text=True, timeout=3000, env=env)
+            if p.returncode != 0:
+                raise vf.Infra("race harness failed rc=%d\n%s" % (p.returncode, (p.stdout + p.stderr)[-3000:]))
+            sm = json.load(open(summ))
+            fs = vf.load_failures(fail)
+            # reports of the race detector that name a frame of the library
+            reports = []
+            for fn in os.listdir(d):
+                if fn.startswith("race."):
+                    txt = open(os.path.join(d, fn), errors="replace").read()
+                    for block in txt.split("=================="):
+                        if "DATA RACE" in block and "github.com/antonmedv/expr" in block:
+                            reports.append(block.strip())
+            seen = set()
+            for b in reports:
+                frames = [l.strip() for l in b.splitlines() if "github.com/antonmedv/expr" in l and "(" in l]
+                sig = tuple(frames[:2])
+                if sig in seen:
+                    continue
+                seen.add(sig)
+                fs.append({"why": "data-race", "src": "(free-running goroutines over the corpus %s)" % name, "mode": modes,
+                           "got": {"err": b[:1500]}, "tags": list(sig)})
+            sm["failures"] = len(fs)
+            sm.setdefault("stats", {})["race detector reports naming the library"] = len(reports)
+            acc.add_summary(sm)
+            for x in fs:
+                x["prop"] = "C08"
+                x["stage"] = name
+            acc.failures += fs
+            vf.log("[C08] stage %-22s tlc: %d cases  real executions under -race: %d  race reports: %d  failures: %d" % (
+                name, st.get("cases", 0), sm["executions"], len(reports), len(fs)))
+    return Stage(name, "MC_Expr", gcfg, func=f)
+
+
+def stages_C08(tier):
+    out = [Stage("mc-2vm", "Conc", conc_cfg(2, 40, "none"), kind="mc", workers=vf.NCPU, timeout=1800),
+           Stage("sched-2vm", "Conc", conc_cfg(2, 40, "cases", view=False), "C08S", modes="struct:noopt",
+                 simulate=300 if tier == "quick" else 3000, depth=200, warm=False),
+           Stage("sched-3vm", "Conc", conc_cfg(3, 60, "cases", view=False), "C08S", modes="struct:noopt",
+                 simulate=150 if tier == "quick" else 1500, depth=300, warm=False)]
+    if tier == "thorough":
+        out.append(Stage("mc-3vm", "Conc", conc_cfg(3, 3, "none"), kind="mc", workers=vf.NCPU, timeout=3000))
+    st = 9 if tier == "quick" else 2
+    out.append(race_stage("race-mixed", "mixed", 4, "ptr:opt,map:noopt", st))
+    out.append(race_stage("race-string", "string", 4, "ptr:opt", st))
+    out.append(race_stage("race-coll", "coll", 4, "ptr:opt", st))
+    return out
+
+
+C08_RULE = ("(a) TLC (Conc.tla): 2 (thorough: also 3) machines over 5 shared programs - arithmetic, a loop, an allocating "
+            "range, a call, a failing index - every interleaving at instruction granularity: Isolation (a finished machine "
+            "returned the reference outcome) and SharedUntouched; (b) random interleavings of 2 and 3 machines (tlc "
+            "-simulate) are replayed on real goroutines: the verif hook is the gate, each real VM executes its next "
+            "instruction exactly when the schedule says so; every run must return what it returns alone and what the "
+            "reference assigns, the shared program image and environment must be unchanged; (c) for every 9th (2nd) case "
+            "of three corpora: 6 goroutines compile the source concurrently against one sample environment (programs "
+            "must be identical) and run one FRESH program twice each on one shared environment (results must equal the "
+            "sequential one), and 24 goroutines compile against four environment types with embedded structs, all in a "
+            "binary built with -race: a race report naming a frame of the library is a failure")
+
+
+def check_C08(tier):
+    return run_check("C08", tier, stages_C08(tier), C08_RULE,
+                     assumptions=EVAL_ASSUME + ["the Go race detector is an observer outside the TLA+ family: it reports the "
+                                                "unsynchronised accesses of the schedules that happened to run",
+                                                "gated replay interleaves at instruction boundaries (the hook fires after "
+                                                "each instruction)"])
+
+
+CHECKS = {"C08": check_C08, "C16": check_C16, "C04": check_C04, "C03": check_C03, "C13": check_C13, "C12": check_C12, "C11": check_C11, "C17": check_C17, "C09": check_C09, "C10": check_C10, "C01": check_C01, "C02": check_C02, "C05": check_C05, "C06": check_C06, "C07": check_C07,
           "C14": check_C14, "C15": check_C15, "C18": check_C18}
-STAGES = {"C16": stages_C16, "C04": stages_C04, "C03": stages_C03, "C13": stages_C13, "C12": stages_C12, "C11": stages_C11, "C17": stages_C17, "C09": stages_C09, "C10": stages_C10, "C01": stages_C01, "C02": stages_C02, "C05": stages_C05, "C06": stages_C06, "C07": stages_C07,
+STAGES = {"C08": stages_C08, "C16": stages_C16, "C04": stages_C04, "C03": stages_C03, "C13": stages_C13, "C12": stages_C12, "C11": stages_C11, "C17": stages_C17, "C09": stages_C09, "C10": stages_C10, "C01": stages_C01, "C02": stages_C02, "C05": stages_C05, "C06": stages_C06, "C07": stages_C07,
           "C14": stages_C14, "C15": stages_C15, "C18": stages_C18}
 
 
